@@ -13,8 +13,9 @@ run, are the model's: `bindata.UnmarshalBinary` (the length prefix read with its
 `UserProp.UnmarshalBinary` (key, the value starting at `len(key)+2`, the width), `rawdata.UnmarshalBinary` (the PUBLISH
 payload: a copy of all that is left) -/
 theorem C09_wire_decoders_from_source :
-    (∀ old, Gen.bindata.dec old = decBin old) ∧ Gen.UserProp.dec = decPair ∧ Gen.rawdata.dec = decRaw :=
-  ⟨Tie.WireVar.bindata_dec, Tie.WireVar.userProp_dec, Tie.WireVar.rawdata_dec⟩
+    (∀ old, Gen.bindata.dec old = decBin old) ∧ Gen.UserProp.dec = decPair ∧ Gen.rawdata.dec = decRaw
+    ∧ Gen.UserProp.errTests = true :=
+  ⟨Tie.WireVar.bindata_dec, Tie.WireVar.userProp_dec, Tie.WireVar.rawdata_dec, Tie.WireVar.userProp_errTests⟩
 
 /-- `UserProp.fill` is the model's filler, and **`UserProperties.properties`** — the method every packet type's
 `properties` ends with: the pairs in order, each through `UserProp.fillProp` (nothing for an empty key, else the
